@@ -1,22 +1,74 @@
-"""C23 - discrete interval sets and region value sets are sound abstractions (bounded only)."""
+"""C23 - discrete interval sets and region value sets are sound abstractions.
+Mixed: every lifted operation of the real ValueSet and DiscreteStridedIntervalSet classes is PROVED to contain the pointwise results
+of its members against the C21/C22 contracts of the member operations (lifting lemmas, member sets arbitrary); the hash discipline that
+Python sets of intervals depend on is proved on the real StridedInterval.__hash__; end-to-end enumeration stays as a BOUNDED part."""
 from vf.common import task
 
-LEVEL = "exploration"
-LEVEL_TEXT = ("Bounded stand-in, never counted as proved: DiscreteStridedIntervalSet collects per-member results in hash-ordered Python sets and joins "
-              "them in iteration order, which the contract engine does not model, and the lifted operations are one-line liftings of the C21/C22 "
-              "transfer functions.  All sets of two plain intervals (width 3, strides 1/2/4) against interval operands, and region value sets over "
-              "two regions, are driven through the real classes with every member combination enumerated: lifted add/sub/and/or/xor, union, "
-              "intersection contain the pointwise results (per region for value sets); eval/cardinality are consistent with the members.")
-TECHNIQUE = "bounded exhaustive enumeration against the real DSIS / ValueSet classes (stand-in)"
+LEVEL = "other"
+LEVEL_TEXT = ("Mixed.  PROVED (contract-based lifting lemmas): the real ValueSet class and the real DiscreteStridedIntervalSet class (both "
+              "re-loaded from /repo; the latter really subclasses the contract value) are executed on value sets / discrete sets whose regions / "
+              "member intervals hold ARBITRARY member sets (symbolic bit masks over all values of the width); the member operations they call are "
+              "answered by the C21/C22 contract (containment; exact queries).  z3 proves, per region resp. per member interval, that every "
+              "concrete result of member operands is in the result: value set +, -, %, &, LShR with an interval; union / widen / intersection "
+              "with a value set and with an interval; value-set difference; concat; extract; _merge_si / _set_si / copy (with frame: other "
+              "regions untouched); eval / cardinality / min / max.  Discrete sets: + - & | ^ // % << >> neg ~ == != UGT UGE ULT ULE union "
+              "intersection concat extract zero/sign extension with an interval, an integer and another discrete set; eval, cardinality "
+              "(documented over-approximation), collapse, normalize, copy.  The real StridedInterval.__hash__ is proved to separate member sets "
+              "(a Python set keeps one of two intervals with equal hashes because __eq__ returns a truthy BoolResult).  BOUNDED (never "
+              "counted as proved): all sets of two plain intervals of width 3 and value sets over two regions through the real classes with "
+              "the real StridedInterval, every member combination enumerated.")
+EXPLANATION = ("proved: lifting lemmas for ValueSet and DiscreteStridedIntervalSet modulo the C21/C22 contracts + hash discipline; "
+               "bounded: exhaustive enumeration over pools of plain intervals of width 3")
+TECHNIQUE = "contract-based deductive verification of the real ValueSet / DiscreteStridedIntervalSet classes against abstract-value contracts (pyvc + z3) + bounded exhaustive enumeration (stand-in for the end-to-end statement)"
 RULE = "see the per-task rule; exhaustive over the stated pools"
-FUNCTIONS = []
-TRUSTED = []
-ASSUMPTIONS = ["plain (non-wrapping, power-of-two stride) member intervals of width 3: the wrapping / misaligned classes are the recorded C21/C22 findings"]
+FUNCTIONS = ["ValueSet." + m for m in ["__init__", "_set_si", "_merge_si", "copy", "__add__", "__radd__", "__sub__", "__mod__", "__and__", "LShR", "union", "widen",
+                                       "intersection", "concat", "extract", "eval", "cardinality", "min", "max", "get_si", "is_empty"]] + \
+            ["DiscreteStridedIntervalSet." + m for m in ["__init__", "apply_on_each_si (decorator)", "convert_operand_to_si (decorator)", "collapse_operand (decorator)",
+                                                         "__add__", "__sub__", "__and__", "__or__", "__xor__", "__floordiv__", "__mod__", "__lshift__", "__rshift__",
+                                                         "__neg__", "__invert__", "__eq__", "__ne__", "UGT", "UGE", "ULT", "ULE", "union", "_union_with_si",
+                                                         "_union_with_dsis", "intersection", "_intersection_with_si", "_intersection_with_dsis", "concat", "extract",
+                                                         "zero_extend", "sign_extend", "eval", "cardinality", "collapse", "normalize", "should_collapse", "copy",
+                                                         "_update_bounds (frame)", "_update_bits"]] + ["StridedInterval.__hash__"]
+TRUSTED = ["z3 4.13 (decides the VCs)", "CPython 3.12 executes the function bodies",
+           "ASSUMED callee contracts (vf/contracts/absval.py): the member operations satisfy C21/C22 (their recorded known findings are not excluded "
+           "here: the lemmas are 'modulo C21/C22')",
+           "DiscreteStridedIntervalSet._update_bounds is answered by its frame contract inside the lemmas; the frame is its own obligation",
+           "Python's hash() of two different (str, bool, bool) keys does not collide"]
+ASSUMPTIONS = ["width 2 (3 in thorough); region sets from {}, {global}, {stack_1}, {global, stack_1}, {stack_1, heap_2}; discrete sets of two member intervals",
+               "value set & value set (documented as meaningless between different pointers) and value-set comparisons (always Maybe) are not under contract",
+               "operations DiscreteStridedIntervalSet inherits unchanged from StridedInterval (min, max, signed comparisons, LShR, widen via collapse) are not under contract",
+               "bounded part: plain (non-wrapping, power-of-two stride) member intervals of width 3: the wrapping / misaligned classes are the recorded C21/C22 findings"]
+M = "vf.contracts.vslift"
 
 
 def tasks(tier, seed=0):
-    n = 8 if tier == "quick" else 16
+    from vf.contracts import vslift
+    R = "vf.contracts.vslift:replay"
+    ws = [2] if tier == "quick" else [2, 3]
     out = []
+    for w in ws:
+        for op in vslift.BIN_SI:
+            out.append(task(M, "ob_vs_si", f"valueset.{op}[si]/gamma@w{w}", ["C23"], replay=R, op=op, w=w, tier=tier))
+        for op in ("union", "widen", "intersection", "__sub__", "concat"):
+            out.append(task(M, "ob_vs_vs", f"valueset.{op}[vs]/gamma@w{w}", ["C23"], replay=R, op=op, w=w, tier=tier))
+        for op in ("union", "widen", "intersection"):
+            out.append(task(M, "ob_vs_join_si", f"valueset.{op}[si]/gamma@w{w}", ["C23"], replay=R, op=op, w=w, tier=tier))
+        for fn in ("_merge_si", "_set_si", "copy"):
+            out.append(task(M, "ob_vs_merge", f"valueset.{fn}/gamma+frame@w{w}", ["C23"], method=fn, w=w, tier=tier))
+        for q in ("eval1", "eval3", "eval9", "cardinality", "min", "max", "extract", "concat[si]"):
+            out.append(task(M, "ob_vs_query", f"valueset.{q}/consistent@w{w}", ["C23"], q=q, w=w, tier=tier))
+        for op in list(vslift.DSIS_BIN) + list(vslift.DSIS_UN) + list(vslift.DSIS_CMP) + ["union", "intersection", "concat", "extract", "zero_extend", "sign_extend"]:
+            others = [""] if op in vslift.DSIS_UN or op in ("extract", "zero_extend", "sign_extend") else (
+                ["si", "dsis"] if op in ("union", "intersection", "concat") else ["si", "int", "dsis"])
+            for o in others:
+                out.append(task(M, "ob_dsis", f"dsis.{op}" + (f"[{o}]" if o else "") + f"/gamma@w{w}", ["C23"], op=op, w=w, other=o or "si", tier=tier))
+        for q in ("eval1", "eval3", "cardinality", "collapse", "normalize", "copy"):
+            out.append(task(M, "ob_dsis_query", f"dsis.{q}/consistent@w{w}", ["C23"], q=q, w=w, tier=tier))
+    out.append(task(M, "ob_dsis_frame", "dsis._update_bounds/frame", ["C23"], w=2, tier=tier))
+    for w in ([1, 2] if tier == "quick" else [1, 2, 3]):
+        out.append(task("vf.contracts.si", "ob_hash", f"si.__hash__/separates-member-sets@w{w}", ["C23", "C21"], replay="vf.contracts.si:replay_hash", w=w, tier=tier))
+    out.append(task(M, "ob_canary", "valueset+dsis.canaries/wrong-postconditions-fail", ["C23"], tier=tier))
+    n = 8 if tier == "quick" else 16
     for sh in range(n):
         out.append(task("vf.bounded.vs_enum", "dsis", f"dsis.lifted-ops/bounded#{sh}", ["C23"], kind="bounded", replay="vf.bounded.vs_enum:replay",
                         shard=sh, nshards=n, w=3, budget_s=40 if tier == "quick" else 600))
